@@ -115,6 +115,12 @@ def c19_2(ctx, ss):
                           "real and imaginary coefficient of an amplitude get the same name")
         else:
             ctx.holds("C19.2", k, where(ff, ff.node), f"{cls_}: {len(names)} coefficient declarations, real → _r, imaginary → _i in every arm", len(names))
+        # value and error of a coefficient come from the same component
+        for c, s_, t, js, b in names:
+            line = [ln for ln in "".join(str(p.value) if isinstance(p, ast.Constant) else "{" + txt(p.value) + "}" for p in js.values).split("\n") if f"{{self.amp.{c}}}" in ln]
+            other = "imag" if c == "real" else "real"
+            if any(f"{{self.err.{other}}}" in ln or f"{{self.amp.{other}}}" in ln for ln in line):
+                ctx.violation("C19.2", k + f" :: components:{c}", where(ff, js), f"{cls_}: the {c} coefficient is emitted with the {other} part of the value or error")
         # the name is built from the amplitude's own string in every arm
         bases = {b for c, s, t, js, b in names}
         (ctx.holds if bases == {"self"} else ctx.violation)("C19.2", k + " :: base", where(ff, ff.node),
@@ -210,6 +216,14 @@ def c19_4(ctx, ss):
         (ctx.holds if ok_use and ok_decl else ctx.violation)("C19.4", k + " :: mass-width", where(ls, ls.node),
                                                              f"{cls_}: <particle.programmatic_name>_M / _W declared for every non-final particle seen and used by every line shape" if ok_use and ok_decl
                                                              else f"{cls_}: resonance variables are declared as {decl} but used as {sorted(set(uses))} (par = {txt(par_defs[0].value) if par_defs else None})")
+        # every resonance met while reading is recorded (these are the particles the _M / _W variables are declared for)
+        fm, fmflow = fn(ss, "modeling/amplitudechain.py", "AmplitudeChain.from_matched_line")
+        adds = [n for n in pf.walk_no_nested(fm.node) if isinstance(n, ast.AugAssign) and isinstance(n.target, ast.Attribute) and n.target.attr == "all_particles"]
+        oka = len(adds) == 1 and isinstance(adds[0].op, ast.BitOr) and txt(adds[0].value) in ("{mat['particle']}",) and \
+            [(txt(e), pol) for kind, e, pol in guards.path_conditions(fm.node, adds[0]) if kind == "if"] in ([], [("mat['particle'] not in cls.all_particles", True)])
+        if cls_ == CH[0]:
+            (ctx.holds if oka else ctx.violation)("C19.4", f"{GOOFIT}:all_particles :: recorded", where(fm, adds[0] if adds else fm.node),
+                                                  "every particle of every line is added to all_particles" if oka else "not every particle met while reading is added to all_particles: its _M / _W variables are used but never declared")
         # _SplineArr
         use_s = [d for d in lsflow.defs if d.kind == "assign" and d.value is not None and "_SplineArr" in txt(d.value)]
         ok_us = len(use_s) == 1 and txt(use_s[0].value) == "programmatic_name(self.name) + '_SplineArr'"
